@@ -669,6 +669,35 @@ func (c *Codec) Decode(src []byte) (dst framer.Frame, err error) {
 	return c.DecodeStream(bytes.NewReader(src))
 }
 
+// maxDecodePrealloc bounds how much memory is allocated for a series on the strength
+// of the length the wire claims, before the corresponding bytes have been read.
+const maxDecodePrealloc = 64 << 10
+
+// readData reads size bytes of series data. The length comes from the remote side, so
+// the buffer grows as data actually arrives (doubling from maxDecodePrealloc) instead
+// of being allocated up front: a short or hostile message that claims gigabytes fails
+// with an EOF after allocating memory proportional to what it really contained.
+func (c *Codec) readData(size int64) ([]byte, error) {
+	if size <= maxDecodePrealloc {
+		b := make([]byte, size)
+		_, err := c.reader.Read(b)
+		return b, err
+	}
+	b := make([]byte, maxDecodePrealloc)
+	read := 0
+	for {
+		n, err := c.reader.Read(b[read:])
+		read += n
+		if err != nil {
+			return nil, err
+		}
+		if int64(read) == size {
+			return b, nil
+		}
+		b = append(b, make([]byte, min(int64(len(b)), size-int64(len(b))))...)
+	}
+}
+
 // DecodeStream decodes a frame from the given io reader.
 func (c *Codec) DecodeStream(reader io.Reader) (framer.Frame, error) {
 	c.processUpdates()
@@ -736,12 +765,11 @@ func (c *Codec) DecodeStream(reader io.Reader) (framer.Frame, error) {
 			return errors.Newf("unknown channel key: %v", key)
 		}
 		s.DataType = dataType
-		if dataType.IsVariable() {
-			s.Data = make([]byte, dataLenOrSize)
-		} else {
-			s.Data = make([]byte, dataType.Density().Size(int64(dataLenOrSize)))
+		size := int64(dataLenOrSize)
+		if !dataType.IsVariable() {
+			size = int64(dataType.Density().Size(int64(dataLenOrSize)))
 		}
-		if _, err = c.reader.Read(s.Data); err != nil {
+		if s.Data, err = c.readData(size); err != nil {
 			return err
 		}
 		if !fgs.equalTimeRanges {
